@@ -1,8 +1,125 @@
 import Genshi.Wire
-namespace Driver.C07
-open Genshi
+import Genshi.WireCore
+import Genshi.Model.ParseHtml
+import Genshi.Model.ParseXml
+/-
+  C07 driver verbs (see harness/props/c07.py):
 
-/-- stub: the model driver for C07 is not built yet -/
-def handle : List Sexp → Option Sexp := fun _ => none
+    C07 html ( read... ) ( item... ) ( ( value ( ok stripped ) | ( err Name ) )... )
+        read = ( T item... ) | B | ( F sName T|F )   (item verbs are upper-case on the wire: ST SE ET D C PI CR ER DECL RAISE)
+        item = ( st tag ( ( name value|N )... ) ) | ( se tag attrs ) | ( et tag ) | ( d text ) | ( c text )
+             | ( pi data ) | ( cr name ) | ( er name ) | ( decl text ) | ( raise Name T|F )
+    C07 xml ( read... ) ( item... )
+        read = ( t item... ) | ( f Name T|F ) | unenc
+        item = ( se name ( ( n v )... ) ) | ( ee name ) | ( cd text ) | ( xd version enc|N standalone )
+             | ( dt name sysid|N pubid|N T|F ) | ( ns pfx|N uri|N ) | ( ens pfx|N ) | sc | ec | ( pi t d )
+             | ( cm text ) | ( df text line col ) | ( xerr line col ) | ( raise Name T|F )
+    answer: ( ( event... ) ok ) | ( ( event... ) ( parseError line col ) ) | ( ( event... ) ( propagate Name ) )
+            | unmodelled
+-/
+namespace Driver.C07
+open Genshi Genshi.Parse Genshi.Sexp
+
+def exc? (name : Str) : Sexp → Option PyExc
+  | .atom "T" => some (.exc name)
+  | .atom "F" => some (.base name)
+  | _ => none
+
+def hattrs? : Sexp → Option (List (Str × Option Str))
+  | .list xs => xs.mapM fun
+      | .list [.str n, v] => do let v ← optStr? v; pure (n, v)
+      | _ => none
+  | _ => none
+
+def htmlItem? : Sexp → Option (Item HtmlCb)
+  | .list [.atom "ST", .str tag, a] => do let a ← hattrs? a; pure (.cb (.starttag tag a))
+  | .list [.atom "SE", .str tag, a] => do let a ← hattrs? a; pure (.cb (.startendtag tag a))
+  | .list [.atom "ET", .str tag] => some (.cb (.endtag tag))
+  | .list [.atom "D", .str s] => some (.cb (.data s))
+  | .list [.atom "C", .str s] => some (.cb (.comment s))
+  | .list [.atom "PI", .str s] => some (.cb (.pi s))
+  | .list [.atom "CR", .str s] => some (.cb (.charref s))
+  | .list [.atom "ER", .str s] => some (.cb (.entityref s))
+  | .list [.atom "DECL", .str s] => some (.cb (.decl s))
+  | .list [.atom "RAISE", .str n, b] => do let e ← exc? n b; pure (.raise e)
+  | _ => none
+
+def htmlRead? : Sexp → Option HtmlRead
+  | .atom "B" => some .bytes
+  | .list (.atom "T" :: items) => do let l ← items.mapM htmlItem?; pure (.text l)
+  | .list [.atom "F", .str n, b] => do let e ← exc? n b; pure (.fail e)
+  | _ => none
+
+def stripRow? : Sexp → Option (Str × Except PyExc Str)
+  | .list [.str v, .list [.atom "ok", .str r]] => some (v, .ok r)
+  | .list [.str v, .list [.atom "err", .str n]] => some (v, .error (.exc n))
+  | _ => none
+
+def stripOf (tbl : List (Str × Except PyExc Str)) (v : Str) : Except PyExc Str :=
+  match tbl.find? (fun p => p.1 = v) with
+  | some p => p.2
+  | none => .error (.base "missing-strip-row".toList)
+
+def itemModelled : Item HtmlCb → Bool
+  | .cb (.charref n) => charrefModelled n
+  | _ => true
+
+def readModelled : HtmlRead → Bool
+  | .text l => l.all itemModelled
+  | _ => true
+
+def raisedOut : Option Raised → Sexp
+  | none => .atom "ok"
+  | some (.parseError l c) => .list [.atom "parseError", ofInt l, ofInt c]
+  | some (.propagate n) => .list [.atom "propagate", .str n]
+
+def answer (r : Stream × Option Raised) : Sexp := .list [streamToSexp r.1, raisedOut r.2]
+
+def xattrs? : Sexp → Option (List (Str × Str))
+  | .list xs => xs.mapM fun
+      | .list [.str n, .str v] => some (n, v)
+      | _ => none
+  | _ => none
+
+def xmlItem? : Sexp → Option (Item XmlCb)
+  | .list [.atom "SE", .str n, a] => do let a ← xattrs? a; pure (.cb (.startElement n a))
+  | .list [.atom "EE", .str n] => some (.cb (.endElement n))
+  | .list [.atom "CD", .str s] => some (.cb (.characterData s))
+  | .list [.atom "XD", .str v, e, s] => do let e ← optStr? e; let s ← s.toInt?; pure (.cb (.xmlDecl v e s))
+  | .list [.atom "DT", .str n, s, p, h] => do
+      let s ← optStr? s; let p ← optStr? p; let h ← h.toBool?; pure (.cb (.startDoctype n s p h))
+  | .list [.atom "NS", p, u] => do let p ← optStr? p; let u ← optStr? u; pure (.cb (.startNs p u))
+  | .list [.atom "ENS", p] => do let p ← optStr? p; pure (.cb (.endNs p))
+  | .atom "SC" => some (.cb .startCdata)
+  | .atom "EC" => some (.cb .endCdata)
+  | .list [.atom "PI", .str t, .str d] => some (.cb (.pi t d))
+  | .list [.atom "CM", .str s] => some (.cb (.comment s))
+  | .list [.atom "DF", .str s, l, c] => do let l ← l.toInt?; let c ← c.toInt?; pure (.cb (.default_ s l c))
+  | .list [.atom "XERR", l, c] => do let l ← l.toInt?; let c ← c.toInt?; pure (.raise (.expat l c))
+  | .list [.atom "RAISE", .str n, b] => do let e ← exc? n b; pure (.raise e)
+  | _ => none
+
+def xmlRead? : Sexp → Option XmlRead
+  | .atom "UNENC" => some .unencodable
+  | .list (.atom "T" :: items) => do let l ← items.mapM xmlItem?; pure (.chunk l)
+  | .list [.atom "F", .str n, b] => do let e ← exc? n b; pure (.fail e)
+  | _ => none
+
+def handle : List Sexp → Option Sexp
+  | [.atom "html", .list reads, .list close, .list tbl] => do
+      let reads ← reads.mapM htmlRead?
+      let close ← close.mapM htmlItem?
+      let tbl ← tbl.mapM stripRow?
+      if !(reads.all readModelled && close.all itemModelled) then pure (.atom "unmodelled") else
+      let env : Env := { strip := stripOf tbl, lower := asciiLower, void := Genshi.Gen.Output.parserEmptyElems }
+      pure (answer (htmlParse env reads close))
+  | [.atom "xml", .list reads, .list close] => do
+      let reads ← reads.mapM xmlRead?
+      let close ← close.mapM xmlItem?
+      pure (answer (xmlParse reads close))
+  | [.atom "qname", .str s] => some (mkQName s).toSexp
+  | [.atom "coalesce", f, s] => do
+      let f ← f.toBool?; let s ← streamOfSexp? s; pure (streamToSexp (coalesceGo f none s))
+  | _ => none
 
 end Driver.C07
